@@ -2,6 +2,7 @@ package builder
 
 import (
 	"fmt"
+	"sort"
 
 	"github.com/dave/jennifer/jen"
 	"github.com/jmattheis/goverter/config"
@@ -104,7 +105,13 @@ func (*Enum) Build(gen Generator, ctx *MethodContext, sourceID *xtype.JenID, sou
 	}
 	cases = append(cases, jen.Default().Add(body))
 
+	// report the alphabetically first unknown key, not a random one
+	unknownKeys := make([]string, 0, len(definedKeys))
 	for name := range definedKeys {
+		unknownKeys = append(unknownKeys, name)
+	}
+	sort.Strings(unknownKeys)
+	for _, name := range unknownKeys {
 		return nil, nil, NewError(fmt.Sprintf("Configured enum value %s does not exist on\n    %s", name, source.String)).
 			Lift(&Path{
 				Prefix:     ".",
